@@ -790,7 +790,7 @@ fn units(tier: Tier) -> Vec<Unit> {
         let mut scs = scopes(max_gates);
         if max_gates == 2 && lit == "u32" {
             // quick tier: the 3-gate leaf family (two leaf gates that may coincide + one parent)
-            for (i, l) in [(2usize, 0usize), (1, 1), (1, 0), (0, 1)] {
+            for (i, l) in [(2usize, 0usize), (1, 1)] {
                 scs.push(Scope { i, l, g: 3, leaf: true });
             }
         }
@@ -839,7 +839,7 @@ fn run_unit(u: &Unit, tier: Tier, rep: &mut Report) {
 
 pub fn run(tier: Tier, report: &mut Report) {
     let us = units(tier);
-    let secs = tier.pick(45.0, 1800.0);
+    let secs = tier.pick(75.0, 1800.0);
     let _ = Budget::new(secs);
     if let Some(w) = mc_core::isolate::worker_spec() {
         let deadline = std::time::Instant::now() + std::time::Duration::from_secs_f64(secs);
